@@ -84,7 +84,8 @@ def pmap(f, items, ncpu=None, chunksize=1):
     """fork-based parallel map (f must be a module-level function); returns list of results, raises on worker errors"""
     items = list(items)
     n = min(ncpu or NCPU, max(1, len(items)))
-    if n <= 1:
+    if not items: return []
+    if os.environ.get("VERIF_NOFORK"):
         res = [_runner((f, it)) for it in items]
     else:
         ctx = mp.get_context("fork")
